@@ -47,10 +47,11 @@ def probe_universe(st: State, rng: random.Random, level: int):
             if mn is not None:
                 base += [mn - 1, mn, mn + 1, mx - 1, mx, mx + 1, pt - 1, pt, pt + 1, (mn + mx) // 2]
             amts = {pk.chip(b) for b in base if b >= 0}
-            if mn is not None and pk.chip(mx) - pk.chip(mn) <= 16:
-                amts |= set(range(pk.chip(mn), pk.chip(mx) + 1))
+            q = pk.Units.quantum()
+            if mn is not None and pk.chip(mx) - pk.chip(mn) <= 16 * q:
+                amts |= set(range(pk.chip(mn), pk.chip(mx) + 1, q))
         else:
-            amts = {0, 1, 2, 5}
+            amts = {x * pk.Units.quantum() for x in (0, 1, 2, 5)}
         for a in sorted(amts):
             out.append(('complete_bet_or_raise_to', A(has=True, amt=a)))
         for k in (0, 1, 2, 3, 5):
@@ -315,8 +316,9 @@ def illegal_move(st: State, rng: random.Random, pol: Policy):
         mn = st.min_completion_betting_or_raising_to_amount
         mx = st.max_completion_betting_or_raising_to_amount
         if mn is not None:
-            return 'complete_bet_or_raise_to', A(has=True, amt=rng.choice([pk.chip(mn) - 1, pk.chip(mx) + 1, 0]))
-        return 'complete_bet_or_raise_to', A(has=True, amt=rng.randint(0, 20))
+            q = pk.Units.quantum()
+            return 'complete_bet_or_raise_to', A(has=True, amt=rng.choice([pk.chip(mn) - q, pk.chip(mx) + q, 0]))
+        return 'complete_bet_or_raise_to', A(has=True, amt=rng.randint(0, 20) * pk.Units.quantum())
     if r < 0.9:
         return rng.choice(['deal_hole', 'deal_board']), A(mode='count', n=rng.choice([0, 6, 9]))
     return 'select_runout_count', A(has=True, amt=rng.choice([0, -1, 2]), p=rng.randint(1, n))
